@@ -1,13 +1,13 @@
 """C06 — truncated dumps: parsing terminates and reports a prefix of the full result."""
 from .. import vlib
-from ..translate import tr_kevent
+from ..translate import tr_kevent, tr_container, tr_cli
 from ..harness import dumps as D
 from . import container_common as cc
 from . import pairing_common as pc
 from ..harness.streams import StreamGen
 import struct
 
-TRANSLATORS = [tr_kevent.translate]
+TRANSLATORS = [tr_kevent.translate, tr_container.translate, tr_cli.translate]
 MODEL_TARGETS = ['theories/ContainerCases.vo']
 PROOF_TARGETS = ['props/C06.vo']
 PROP_FILE = 'props/C06.v'
